@@ -36,8 +36,8 @@ ASSUMPTIONS = ['callbacks neither raise nor call back into the machine (C04/C05)
                'a top-level state; event transitions are compared per source (the library groups them by source); every '
                'third builder case uses a state class with its own separator; source=* / dest== declared inside a nested '
                'definition is handed to the library as shorthand and to the model unfolded by the generator; a nested '
-               'state referenced by its State OBJECT in add_transition is registered by the library under its bare local '
-               'name - the builder model is given that (c13_h.NESTED_OBJ_IS_BARE_NAME; reported finding)',
+               'state referenced by its State OBJECT in add_transition is named by its path (D50, fixed): object versus name varies '
+               'between the two scripts on every level; state names are reused across levels (filters of remove_transition)',
                'State objects passed as references are the registered objects (identity is not modelled)',
                'embedded-machine check: event names include to_-prefixed names that are no automatic transitions, the '
                'embedded machine has auto_transitions on or off and one or two levels (also both: D33, fixed); user '
